@@ -47,6 +47,27 @@ def gen_io(repo, report):
                 "  let q := if %s then %s else q in\n"
                 "  let q := if %s then %s else q in\n  q.\n" % (lit(-999), texts[0][0], texts[0][1], texts[1][0], texts[1][1]))
     out += T.emit("clean_cell", "verif/util.py:clean", clean)
+
+    def text_clean():
+        fn = find_func(find_class(itree, "Text"), "_clean")
+        body = [s for s in fn.body if not is_docstring(s)]
+        if [a.arg for a in fn.args.args] != ["self", "value"] or len(body) != 1 or not isinstance(body[0], ast.Try):
+            raise Unsupported("Text._clean is not a single try statement over (self, value): %r" % [ast.unparse(s) for s in body])
+        tr = body[0]
+        if tr.orelse or tr.finalbody or len(tr.handlers) != 1 or ast.unparse(tr.handlers[0].type) != "ValueError" or \
+                [ast.unparse(s) for s in tr.handlers[0].body] != ["return np.nan"]:
+            raise Unsupported("Text._clean handler: %r" % ast.unparse(tr))
+        tb = tr.body
+        if len(tb) != 3 or ast.unparse(tb[0]) != "fvalue = float(value)" or ast.unparse(tb[2]) != "return fvalue" or \
+                not isinstance(tb[1], ast.If) or tb[1].orelse or [ast.unparse(s) for s in tb[1].body] != ["fvalue = np.nan"]:
+            raise Unsupported("Text._clean body: %r" % [ast.unparse(s) for s in tb])
+        c, tc = expr(tb[1].test, Ctx({"fvalue": "N"}))
+        if tc != "B":
+            raise Unsupported("Text._clean test is not boolean: %s" % ast.unparse(tb[1].test))
+        return ("(* one token of a text file.  `parsed` = the result of Python's float(token): None when it raises ValueError *)\n"
+                "Definition text_cell (parsed : option T) : T :=\n"
+                "  match parsed with\n  | Some fvalue => if %s then (n_nan Ops) else fvalue\n  | None => (n_nan Ops)\n  end.\n" % c)
+    out += T.emit("text_cell", "verif/input.py:Text._clean", text_clean)
     out += "End G.\n\nOpen Scope string_scope.\n"
 
     # which NetCDF variable feeds which field of the reader
